@@ -34,6 +34,17 @@ def run(ctx):
     ]
     mism = seq.run_jobs(ctx, jobs, par=3)
     seq.report(ctx, mism, accept)
+    # "the budget belongs to one execution": overlapping executions (sync and async) through ONE policy instance, each with
+    # its own script; every trace must be explained by the threaded model, whose retry state is per execution
+    import p_c07, tscen
+    from tscen import scenario, fn, start, retry, fb, cb, cE
+    scs = []
+    for st in ([retry(2, dly=1)], [retry(1, dly=2), retry(1, dly=1)], [fb(), retry(2, dly=1, rlf=True)], [retry(2, dly=1, a=[cE("E2")])]):
+        for starts in ((0, 0, 0), (0, 1, 2), (0, 2, 2)):
+            for pats in (("FFF", "FS", "S"), ("FS", "FFF", "FFF"), ("FFF", "FFF", "FE")):
+                fns = [[fn(1, "R1" if c == "S" else "R0", None if c == "S" else ("E2" if c == "E" else "E1"), True) for c in p] + [fn(1, "R1")] * 2 for p in pats]
+                scs.append(scenario(st, fns, [start(i + 1, at, asyn=(i == 1)) for i, at in enumerate(starts)]))
+    p_c07.run_family(ctx, "c02t", scs)
     return vlib.finish(ctx, rule="retry-centred stacks: %d retry configurations (maxRetries -1/0/1/2/3, handle/abort/ReturnLastFailure, delay + max duration) alone, nested pairwise, "
                        "and combined with breaker/fallback/bulkhead/limiter; every lazily chosen script incl. timed outcomes; non-trivial = more than one invocation or any policy event" % len(RETRIES),
                        exhaustive=True)
